@@ -212,7 +212,12 @@ func setup(c *Ctx, im *Impl, cf *CaseFile) *harness {
     verifysignature: true
 %s- work-command:
     worktype: psleep
-%s`, V.d.DataDir(), privF, pubF, V.d.Sock, V.tcp, vListen, sleeper, sleeper)
+%s- work-command:
+    worktype: signedwork
+    verifysignature: true
+%s- work-command:
+    worktype: plainkind
+%s`, V.d.DataDir(), privF, pubF, V.d.Sock, V.tcp, vListen, sleeper, sleeper, sleeper, sleeper)
 	N := &node{d: mk("c15n"), keyOK: false, tcp: freePort(), pool: map[string][]*tunit{}}
 	nListen := freePort()
 	N.d.Config = fmt.Sprintf(`---
@@ -501,6 +506,27 @@ type caseSpec struct {
 	SignW   string `json:"signwork,omitempty"`
 	NoUnit  bool   `json:"unit_does_not_exist,omitempty"`
 	AsPlain bool   `json:"plain_text_form,omitempty"`
+	HasName bool   `json:"-"`
+	WTName  string `json:"submitted_worktype,omitempty"` // explicit spelling of the work type (HasName)
+}
+
+// the registered command work types of the two nodes: name -> verifysignature
+var registryOf = map[string]map[string]bool{
+	"c15v": {"vsleep": true, "psleep": false, "signedwork": true, "plainkind": false},
+	"c15n": {"psleep": false},
+}
+
+func coqRegistry(node string) string {
+	names := []string{}
+	for k := range registryOf[node] {
+		names = append(names, k)
+	}
+	sort.Strings(names)
+	xs := []string{}
+	for _, k := range names {
+		xs = append(xs, "("+HxS(k)+", "+CoqBool(registryOf[node][k])+")")
+	}
+	return CoqList(xs)
 }
 
 func replyClass(l string) int {
@@ -525,6 +551,9 @@ func (h *harness) runCase(n *node, cs caseSpec, tk tokenSpec) {
 	switch cs.Cmd {
 	case "submit":
 		wt := map[string]string{"verify": "vsleep", "plain": "psleep", "unknown": "nosuchtype", "remote-signed": "remote", "remote-unsigned": "remote"}[cs.Kind]
+		if cs.HasName {
+			wt = cs.WTName
+		}
 		req["worktype"] = wt
 		req["node"] = "localhost"
 		if cs.Remote {
@@ -584,7 +613,9 @@ func (h *harness) runCase(n *node, cs caseSpec, tk tokenSpec) {
 		return
 	}
 	var line []byte
-	if cs.AsPlain {
+	if cs.AsPlain && cs.Cmd == "submit" {
+		line = []byte("work submit " + fmt.Sprint(req["node"]) + " " + fmt.Sprint(req["worktype"]))
+	} else if cs.AsPlain {
 		line = []byte("work " + cs.Cmd + " " + fmt.Sprint(req["unitid"]))
 	} else {
 		line, _ = json.Marshal(req)
@@ -676,6 +707,28 @@ func (h *harness) runCase(n *node, cs caseSpec, tk tokenSpec) {
 	} else {
 		h.im.Hist("oracle:may-proceed")
 	}
+	// whatever spelling was submitted: a unit of a verifying work type comes into being only with a
+	// valid token (or over the unix socket); a spelling that is not registered creates nothing here
+	recorded := ""
+	for _, id := range created {
+		var st struct{ WorkType string }
+		_ = json.Unmarshal([]byte(after[id]), &st)
+		recorded = st.WorkType
+		if registryOf[n.d.ID][st.WorkType] && cs.Conn != "unix" && !tokenGood {
+			h.im.Violate(fmt.Sprintf("%s submit of work type %q over %s with token %q created unit %s of the VERIFYING work type %q", n.d.ID, req["worktype"], cs.Conn, tk.name, id, st.WorkType),
+				"unverified-unit-created", rec)
+		}
+		if cs.Cmd == "submit" && !cs.Remote {
+			wtS, _ := req["worktype"].(string)
+			if _, reg := registryOf[n.d.ID][wtS]; !reg && wtS != "remote" {
+				h.im.Violate(fmt.Sprintf("%s submit of the unregistered work type name %q created unit %s (recorded work type %q)", n.d.ID, wtS, id, st.WorkType),
+					"unknown-worktype-created-unit", rec)
+			}
+		}
+	}
+	if cs.HasName {
+		h.im.Hist("worktype-spelling-cases")
+	}
 	if effect {
 		h.im.Hist("effect:" + cs.Cmd + ":" + cs.Conn)
 	} else {
@@ -698,8 +751,19 @@ func (h *harness) runCase(n *node, cs caseSpec, tk tokenSpec) {
 	key := fmt.Sprintf("%+v", cs)
 	h.im.Count(key, nontrivial)
 	h.im.Sample(rec)
-	h.cf.Add(fmt.Sprintf("mkcase %s %s %s %s %s %s %s %d", CoqBool(n.keyOK), connCoq[cs.Conn], CoqBool(!tokenPresent), tk.class, target, cmdCoq, CoqBool(effect), rc),
-		fmt.Sprintf("%+v reply=%q effects=%v", cs, l, eff))
+	if cs.HasName {
+		wtS, _ := req["worktype"].(string)
+		rcd := "None"
+		if len(created) > 0 {
+			rcd = "(Some " + HxS(recorded) + ")"
+		}
+		h.cf.Add(fmt.Sprintf("SName %s %s %s %s %s %s %s %s %s %d %s", CoqBool(n.keyOK), connCoq[cs.Conn], CoqBool(!tokenPresent), tk.class, coqRegistry(n.d.ID),
+			HxS(wtS), CoqBool(cs.Remote), CoqBool(cs.SignW == "true"), CoqBool(effect), rc, rcd),
+			fmt.Sprintf("%+v worktype=%q reply=%q effects=%v recorded=%q", cs, wtS, l, eff, recorded))
+	} else {
+		h.cf.Add(fmt.Sprintf("SCase (mkcase %s %s %s %s %s %s %s %d)", CoqBool(n.keyOK), connCoq[cs.Conn], CoqBool(!tokenPresent), tk.class, target, cmdCoq, CoqBool(effect), rc),
+			fmt.Sprintf("%+v reply=%q effects=%v", cs, l, eff))
+	}
 	// housekeeping
 	for _, id := range created {
 		h.discard(n, id)
@@ -718,10 +782,88 @@ func (h *harness) runCase(n *node, cs caseSpec, tk tokenSpec) {
 	}
 }
 
+func spellingsOf(t string) []string {
+	up := strings.ToUpper(t)
+	title := strings.ToUpper(t[:1]) + t[1:]
+	mixed := []byte(t)
+	for i := range mixed {
+		if i%2 == 1 && mixed[i] >= 'a' && mixed[i] <= 'z' {
+			mixed[i] -= 32
+		}
+	}
+	out := []string{up, title, string(mixed), " " + t, t + " ", t + "\x00", t + ".", t + "-x", t + "x", t[:len(t)-1], "\t" + t, t + "\n"}
+	// Unicode simple-fold variants: U+017F for s, U+212A for k
+	if strings.Contains(t, "s") {
+		out = append(out, strings.Replace(t, "s", "\u017f", 1), strings.ReplaceAll(up, "S", "\u017f"))
+	}
+	if strings.Contains(t, "k") {
+		out = append(out, strings.Replace(t, "k", "\u212a", 1))
+	}
+	return out
+}
+
+func (h *harness) spellings(thorough bool, tokByName func(*node, string) tokenSpec) {
+	n := h.V
+	i := 0
+	run := func(name string, remote, plain bool, conn, tok, signw string) {
+		if h.fatal != "" {
+			return
+		}
+		kind := "unknown"
+		if v, ok := registryOf[n.d.ID][name]; ok {
+			kind = map[bool]string{true: "verify", false: "plain"}[v]
+		}
+		cs := caseSpec{Cmd: "submit", Conn: conn, Kind: kind, Remote: remote, AsPlain: plain, HasName: true, WTName: name, SignW: signw}
+		h.runCase(n, cs, tokByName(n, tok))
+	}
+	names := []string{"vsleep", "signedwork", "psleep", "plainkind", "remote"}
+	for _, t := range names {
+		verifying := registryOf[n.d.ID][t]
+		for _, sp := range spellingsOf(t) {
+			i++
+			conn := "tcp"
+			if i%5 == 0 {
+				conn = "mesh"
+			}
+			signw := ""
+			if t == "remote" && i%2 == 0 {
+				signw = "true"
+			}
+			toks := []string{"absent", "valid-rs512"}
+			if verifying || thorough {
+				toks = append(toks, "other-key")
+			}
+			for _, tk := range toks {
+				run(sp, false, false, conn, tk, signw) // JSON, this node
+			}
+			run(sp, true, false, conn, "absent", signw) // JSON, another node
+			// plain text, this node (a blank would split the name into two tokens: JSON only)
+			plainOK := !strings.ContainsAny(sp, " \n")
+			if plainOK {
+				run(sp, false, true, conn, "absent", "")
+			}
+			if thorough {
+				run(sp, true, false, conn, "valid-rs512", signw)
+				if plainOK {
+					run(sp, true, true, conn, "absent", "")
+				}
+				run(sp, false, false, "unix", "absent", signw)
+				run(sp, false, false, "unix", "other-key", signw)
+			}
+		}
+		// the exact names, for contrast (plain-text form included)
+		if t != "remote" {
+			run(t, false, true, "tcp", "absent", "")
+			run(t, false, false, "tcp", "absent", "")
+			run(t, false, false, "mesh", "valid-rs512", "")
+		}
+	}
+}
+
 func runC15(c *Ctx) {
 	im := NewImpl("C15", c.Seed, c.Tier)
 	im.Rule = "cases = command x connection kind x deciding work type x token (real JWTs) x node (with / without verification key): core product exhaustively (4 token classes); generated tokens = baseline, every single and every pair of deviations over the dimensions signing key x algorithm x exp x nbf x iat x aud x iss/sub noise x encoding, plus random full combinations (40 quick / 1500 thorough); 26 hand-made tokens sampled from one splitmix64 stream (thorough: their full product); non-trivial = the command arrives over TCP or a mesh stream and addresses an existing unit / a submit; distinct by full case"
-	cf := &CaseFile{Dir: c.Out, Prop: "C15", Imports: []string{"Model.Sig"}, CaseType: "sig_case", CheckFn: "sig_check", PerShard: 400}
+	cf := &CaseFile{Dir: c.Out, Prop: "C15", Imports: []string{"Model.Sig"}, CaseType: "sig_obs", CheckFn: "sig_obs_check", PerShard: 400}
 	if c.Bin == "" {
 		Must(fmt.Errorf("VERIF_BIN not set"))
 	}
@@ -851,6 +993,9 @@ func runC15(c *Ctx) {
 		}
 		genCase(n, r.Intn(1000), randomDims(r))
 	}
+	// work type NAMES: spellings around every registered type (and around "remote"), JSON and
+	// plain-text submit, this node and another node, without / with a valid / with a bad token
+	h.spellings(c.Thorough(), tokByName)
 	// the rest of the product
 	if c.Thorough() {
 		for _, n := range []*node{h.V, h.N} {
